@@ -1626,7 +1626,8 @@ theorem mutateValue_sim (hC : TwCtx X Xu h0) (p : MV) (hip : p.inplace = false)
     rcases hv4 with rfl | h
     · exact tw_fresh_of_writable (hr3.1 hs)
     · exact h
-  exact mvAttrTransforms_sim hC p v4 r3.2 hip (hO.imp id (fun h => h.2)) hsafe4
+  exact mvAttrTransforms_sim hC p v4 (r3.2 && v4 == r3.1) hip (hO.imp id (fun h => h.2))
+    (fun hs => hsafe4 (by simp only [Bool.and_eq_true] at hs; exact hs.1))
 
 theorem prepareAttrValue_sim (hC : TwCtx X Xu h0) (d : AttrDecl) (v : Ref)
     (attrs : List (Nat × Ref)) (hO : O = [] ∨ attrs = []) :
